@@ -51,8 +51,11 @@ func ancestors(parents [][]int) []map[int]bool {
 	return anc
 }
 
-func gen(rng *rand.Rand, n int, allowRedundant, roots, octo bool) *hist {
+func gen(rng *rand.Rand, n int, allowRedundant, roots, octo, volatile bool) *hist {
 	h := &hist{nfiles: 2}
+	if volatile {
+		h.nfiles = 3 + rng.Intn(2)
+	}
 	nextID := 0
 	addLines := func(c, k int) {
 		for i := 0; i < k; i++ {
@@ -112,15 +115,19 @@ func gen(rng *rand.Rand, n int, allowRedundant, roots, octo bool) *hist {
 		if len(ps) == 0 {
 			addLines(c, 6)
 			// make sure each file has an immortal line
-			for f := 0; f < h.nfiles; f++ {
+			for f := 0; f < 2; f++ { // files 0 and 1 never disappear; the others may be deleted and re-created
 				h.lines = append(h.lines, &line{nextID, f, rng.Float64(), c, -2})
 				nextID++
 			}
 		} else {
 			if len(ps) == 1 {
 				addLines(c, rng.Intn(4))
+				wipe := -1
+				if h.nfiles > 2 && rng.Intn(6) == 0 {
+					wipe = 2 + rng.Intn(h.nfiles-2) // delete a whole file
+				}
 				for _, l := range h.lines {
-					if l.death == -1 && anc[c][l.birth] && l.birth != c && rng.Intn(6) == 0 {
+					if l.death == -1 && anc[c][l.birth] && l.birth != c && (rng.Intn(6) == 0 || l.file == wipe) {
 						l.death = c
 					}
 				}
@@ -195,6 +202,9 @@ func build(h *hist, hoursPerCommit int) (*git.Repository, []*object.Commit, []in
 				fmt.Fprintf(&sb, "L%d\n", l.id)
 			}
 			data := []byte(sb.String())
+			if f >= 2 && len(data) == 0 {
+				continue // the file does not exist in this commit
+			}
 			bh := put(st, plumbing.BlobObject, func(o plumbing.EncodedObject) error {
 				w, _ := o.Writer()
 				w.Write(data)
@@ -253,6 +263,7 @@ type cfg struct {
 	Hours                  int
 	HibDist, HibThreshold  int
 	Disk                   bool
+	Volatile               bool // files beyond the first two may be deleted and re-created
 	Parents                [][]int
 }
 
@@ -307,7 +318,10 @@ func resultString(br leaves.BurndownResult) string {
 	return sb.String()
 }
 
+var vanishes bool
+
 func runOne(c *cfg) (class, msg string) {
+	vanishes = false
 	class = "ground-truth"
 	defer func() {
 		if r := recover(); r != nil {
@@ -315,8 +329,43 @@ func runOne(c *cfg) (class, msg string) {
 		}
 	}()
 	rng := rand.New(rand.NewSource(c.Seed))
-	h := gen(rng, c.N, c.Redundant, c.Roots, c.Octo)
+	h := gen(rng, c.N, c.Redundant, c.Roots, c.Octo, c.Volatile)
 	c.Parents = h.parents
+	// decidable class of the known finding C01-file-deleted-in-dag: the history has at least one merge commit and
+	// some file is present in a commit and absent in one of its children (deleted on a branch or at a merge)
+	{
+		anc := ancestors(h.parents)
+		merges := false
+		for _, ps := range h.parents {
+			if len(ps) > 1 {
+				merges = true
+			}
+		}
+		for m, ps := range h.parents {
+			for f := 2; f < h.nfiles && merges; f++ {
+				if len(h.content(m, anc, f)) != 0 {
+					continue
+				}
+				for _, p := range ps {
+					if len(h.content(p, anc, f)) != 0 {
+						vanishes = true
+					}
+				}
+			}
+		}
+	}
+	if os.Getenv("HV_DEBUG") != "" {
+		anc := ancestors(h.parents)
+		for cc := range h.parents {
+			for f := 0; f < h.nfiles; f++ {
+				var ids []int
+				for _, l := range h.content(cc, anc, f) {
+					ids = append(ids, l.id)
+				}
+				fmt.Fprintf(os.Stderr, "commit %d parents %v author %d file %d: %v\n", cc, h.parents[cc], h.author[cc], f, ids)
+			}
+		}
+	}
 	repo, commits, ticks := build(h, c.Hours)
 	sampling, granularity := c.Sampling, c.Granularity
 	br, facts, item, m := runPipeline(repo, commits, *c, false)
@@ -368,8 +417,9 @@ func runOne(c *cfg) (class, msg string) {
 			return "roundtrip", fmt.Sprintf("ROUNDTRIP mismatch\n%v\n%v", br, b2)
 		}
 	}
-	// per-file
-	for f := 0; f < h.nfiles; f++ {
+	// per-file (files 0 and 1, which exist in every commit; the others are deleted and re-created at will and
+	// only enter the project-level, per-developer and interaction checks)
+	for f := 0; f < 2; f++ {
 		var fe []event
 		for _, l := range h.lines {
 			if l.file != f {
@@ -414,7 +464,7 @@ func runOne(c *cfg) (class, msg string) {
 		}
 	}
 	// ownership
-	for f := 0; f < h.nfiles; f++ {
+	for f := 0; f < 2; f++ {
 		w := map[int]int{}
 		for _, l := range h.content(head, anc, f) {
 			w[devIndex[h.author[l.birth]]]++
@@ -454,8 +504,11 @@ func main() {
 	stats := map[string]int{}
 	for it := 0; it < count; it++ {
 		cs := seed*1000003 + int64(it)
+		if v := os.Getenv("HV_CASE_SEED"); v != "" {
+			fmt.Sscan(v, &cs) // replay of one recorded case
+		}
 		rng := rand.New(rand.NewSource(cs ^ 0x5eed))
-		c := &cfg{Seed: cs, N: 3 + rng.Intn(maxN-2), Redundant: rng.Intn(3) == 0, Roots: rng.Intn(4) == 0, Octo: rng.Intn(3) == 0,
+		c := &cfg{Seed: cs, Volatile: len(extra) > 1 && extra[1] == "volatile", N: 3 + rng.Intn(maxN-2), Redundant: rng.Intn(3) == 0, Roots: rng.Intn(4) == 0, Octo: rng.Intn(3) == 0,
 			Granularity: 1 + rng.Intn(4), Hours: 5 + rng.Intn(20)}
 		c.Sampling = 1 + rng.Intn(c.Granularity)
 		if c.Roots && c.Hours > 23 {
@@ -470,6 +523,9 @@ func main() {
 			c.HibDist, c.HibThreshold, c.Disk = 1+rng.Intn(3), []int{0, 0, 3, 10, 1000}[rng.Intn(5)], true
 		}
 		class, m := runOne(c)
+		if m != "" && vanishes {
+			class = "file-deleted-in-dag" // whatever the symptom (wrong cells, run-to-run differences, negative cells)
+		}
 		js, _ := json.Marshal(c)
 		fmt.Fprintf(wo, "hist %s\n", js)
 		if m == "" {
